@@ -16,6 +16,7 @@ package c32
 import (
 	"fmt"
 	"math/rand/v2"
+	"runtime/debug"
 	"sort"
 	"testing"
 
@@ -27,6 +28,10 @@ import (
 )
 
 var comparer = testkeys.Comparer
+
+// The monitor allocates many short-lived small objects; a laxer GC target
+// keeps the collector from dominating the run on a shared machine.
+func init() { debug.SetGCPercent(400) }
 
 var letters = []string{"a", "b", "c", "d", "e", "f", "g", "h"}
 
@@ -561,7 +566,7 @@ func TestVerifC32(t *testing.T) {
 	r.Assume("spans are handed to keyspan.Fragmenter in start-key order and iterators are driven within the FragmentIterator contract (first op absolute; no Next after a forward op returned nothing, no Prev after a backward one)")
 	r.Assume("transformers only remove keys; the always-equal defragmentation mode is paired with a reducer that keeps the union of the keys")
 	m := &monitor{r: r}
-	n := vcommon.Scale(40000, 3000000)
+	n := vcommon.Scale(40000, 1500000)
 	r.Cases(n, func(i int, rng *rand.Rand) {
 		spans, bounds := genSpans(rng)
 		probes := probesFor(bounds)
@@ -638,6 +643,22 @@ func TestVerifC32(t *testing.T) {
 		// (5) the compaction stack; levels additionally split at random points so that joinable fragments exist
 		if rng.IntN(2) == 0 {
 			lv := make([][]span, nl)
+			// distinct trailers (see checkStack): renumber the keys
+			next := uint64(1)
+			uraw := make([][]span, nl)
+			for l := range raw {
+				for _, s := range raw[l] {
+					c := span{S: s.S, E: s.E}
+					for _, k := range s.Keys {
+						k.Seq = next
+						next++
+						c.Keys = append(c.Keys, k)
+					}
+					sortKeys(c.Keys)
+					uraw[l] = append(uraw[l], c)
+				}
+			}
+			raw := uraw
 			for l := range raw {
 				var ex []string
 				for _, b := range bounds {
